@@ -221,6 +221,13 @@ func (g *gen) funcSpec(si symInfo) *FuncSpec {
 		if p.Lang {
 			f.Kind = "idlang" // the result depends on the language the function is called with
 		}
+	case 5:
+		if p.Lang {
+			// more fixed values where languages matter (half of them become static loads below); the value comes
+			// from a stream of its own
+			f.Kind = "fixed"
+			f.Fixed = vk.Pick(vk.CaseRNG(0x57a71d, fmt.Sprintf("%s/%d", f.Sym, len(g.syms))), []string{"static text", "a longer static text of 40 bytes, roughly", "s", "first\nsecond"})
+		}
 	}
 	if p.Latin1 {
 		if f.Kind == "id" || f.Kind == "" {
@@ -272,6 +279,20 @@ func (g *gen) funcSpec(si symInfo) *FuncSpec {
 		f.ErrOn = []int{r.Range(1, 3)}
 		f.ErrPeriod = r.Range(2, 4)
 		f.Status = r.Intn(5)
+	}
+	if p.Lang && f.Kind == "fixed" && len(f.FlagSet) == 0 && len(f.FlagReset) == 0 && len(f.ErrOn) == 0 {
+		// half of the plain fixed values are static loads with translations (decided by a stream of their own, so
+		// that the rest of the generation is what it was before they existed)
+		rs := vk.CaseRNG(0x57a71c, fmt.Sprintf("%s/%s/%d/%d", f.Sym, f.Fixed, len(g.syms), len(g.labels)))
+		if rs.Bool() {
+			f.Kind = "static"
+			f.Trans = map[string]string{}
+			for _, lc := range []string{"nor", "swa", "fra"} {
+				if rs.Bool() {
+					f.Trans[lc] = "[" + lc + "]" + f.Fixed
+				}
+			}
+		}
 	}
 	return f
 }
